@@ -338,6 +338,7 @@ DUR_SEEDS = [
     "P2000-01-01T00:00:00",
 ]
 REC_SEEDS = [
+    "R7/8504/PT1,e885H",    # regression: used to raise OverflowError
     "R/2000-01-01T00Z/P1D", "R5/2000-01-01T00Z/P1D", "R/P1D/2000-01-01T00Z",
     "R3/P1M/2000-03-31T00Z", "R5/2000/2001", "R/2000-01-01T00Z/2000-01-02T00Z",
     "R1/2000-01-01T00Z/P1Y", "R2/P1W/20000101T00Z", "R/20000101T00Z/PT6H",
